@@ -601,3 +601,85 @@ def elementwise(ix, defs, e):
             src = ms[i][2]["recv"]
             return {"src": src, "pat": cl["params"][0], "elem": cl["body"], "scope": cl, "form": "map", "pre": names[:i]}
     return None
+
+
+def bool_split(body, pred):
+    """the two-way split of a function body on a bool expression c with pred(c) (through `!`):
+    `if c {A} else {B}`, `if c {A; diverges}` + the rest of the block, `match c {true => A, false => B}`.
+    returns (nodes executed when c is true, nodes executed when c is false, the branching node) or None"""
+    parents = {}
+    for n, ps in walk_parents(body):
+        parents[id(n)] = ps[-1] if ps else None
+    for n in walk(body):
+        k = n.get("k")
+        if k not in ("if", "match"):
+            continue
+        c = resolve(n["cond"] if k == "if" else n["scrut"])
+        neg = False
+        while c.get("k") == "unary" and c["op"] == "!":
+            neg, c = not neg, resolve(c["e"])
+        if not pred(c):
+            continue
+        t = e = None
+        if k == "if":
+            t = list(walk(n["then"]))
+            if "else" in n:
+                e = list(walk(n["else"]))
+            elif _diverges(n["then"]):
+                # the rest of the enclosing block
+                holder = parents.get(id(n))
+                child = n
+                while holder is not None and holder.get("k") not in ("block",):
+                    child, holder = holder, parents.get(id(holder))
+                if holder is None:
+                    continue
+                rest, seen_ = [], False
+                for s_ in holder["stmts"] + ([holder["tail"]] if "tail" in holder else []):
+                    if seen_:
+                        rest += list(walk(s_))
+                    if s_ is child:
+                        seen_ = True
+                e = rest
+            else:
+                e = []
+        else:
+            arms = {}
+            for arm in n["arms"]:
+                for alt in pat_alts(arm["pat"]):
+                    if alt.get("k") == "plit" and isinstance(alt.get("v"), bool):
+                        arms[alt["v"]] = arm["body"]
+                    elif alt.get("k") in ("pwild", "pbind"):
+                        arms.setdefault("other", arm["body"])
+            tb = arms.get(True, arms.get("other"))
+            eb = arms.get(False, arms.get("other"))
+            if tb is None or eb is None:
+                continue
+            t, e = list(walk(tb)), list(walk(eb))
+        if neg:
+            t, e = e, t
+        return t, e, n
+    return None
+
+
+def value_source(ix, defs, n):
+    """the expression a local's value comes from: its let initialiser (through `?`), or - for the parameter of a closure passed
+    to Result/Option `map` / `and_then` / `map_err`-free chains - the receiver of that call"""
+    n = strip_try(n)
+    for _ in range(6):
+        if n.get("k") != "local":
+            return n
+        d = defs.get(n["id"])
+        if not d:
+            return n
+        if d[0] == "let" and "init" in d[1] and d[2].get("k") == "pbind":
+            n = strip_try(d[1]["init"])
+            continue
+        if d[0] == "closure" and len(d[1]["params"]) == 1:
+            q = ix.parent.get(id(d[1]))
+            while q is not None and q.get("k") == "ref":
+                q = ix.parent.get(id(q))
+            if q is not None and q.get("k") == "mcall" and q["name"] in ("map", "and_then") and ("Result" in (q.get("path") or "") or "Option" in (q.get("path") or "")):
+                n = strip_try(q["recv"])
+                continue
+        return n
+    return n
